@@ -60,6 +60,36 @@ def traces_from_replay(hist: List[Dict[str, Any]], obs: Dict[int, Dict[str, Any]
     return {"test": "replay", "noop": noop, "events": events}
 
 
+def traces_from_spec(hist: List[Dict[str, Any]], noop: bool, volatile: bool) -> Dict[str, Any]:
+    """The store operations the SPECIFICATION itself performs (DdsEval with LogOps), as an EvalProto
+    trace: checks that the evaluation machine refines the protocol it is projected to."""
+    import hashlib
+    kid = lambda c: hashlib.sha1(json.dumps(c, sort_keys=True).encode()).hexdigest()
+    events: List[Dict[str, Any]] = []
+    pid = None
+    for rec in hist:
+        if rec["op"] != "eval":
+            continue
+        if rec["err"] not in ("", []) and rec["err"][0] == "reject":
+            continue     # rejected by the analysis: no evaluation context is ever entered
+        if volatile and pid is not None and rec.get("pid") != pid:
+            events.append({"e": "reset"})
+        pid = rec.get("pid")
+        st = rec.get("stages", 5)
+        events.append({"e": "begin", "commit": st >= 5, "run": st >= 3})
+        for op in rec.get("ops", []):
+            if op[0] == "has":
+                events.append({"e": "has", "k": kid(op[1]), "ans": bool(op[2])})
+            elif op[0] == "fetch":
+                events.append({"e": "fetch", "k": kid(op[1])})
+            elif op[0] == "store":
+                events.append({"e": "store", "k": kid(op[1])})
+            elif op[0] == "sync":
+                events.append({"e": "sync", "m": [[p, kid(c)] for (p, c) in op[1]]})
+        events.append({"e": "end", "ok": rec["err"] in ("", [])})
+    return {"test": "spec", "noop": noop, "events": events}
+
+
 def validate(traces: List[Dict[str, Any]], name: str = "evalproto") -> Tuple[common.TLCResult, List[Dict[str, Any]]]:
     d = common.stage_spec({}, name)
     tf = os.path.join(d, "traces.json")
